@@ -497,12 +497,33 @@ func runC07(c *core.Ctx) {
 		c.Decide(okFold, "C07.path-proof", fn, "the hash compared with the root is the running fold (only HashLeaf / HashChildren results are stored in it)", c.P.Rel(fn.Pos()), "")
 		c.Decide(okStart && okRet, "C07.path-proof", fn, "the fold starts at HashLeaf(value) of the very value that is returned", c.P.Rel(fn.Pos()), "")
 		// flag decision table
+		// the flag / the sibling: the value read by NextByte / NextHash, in MerkleProve itself or handed back by
+		// a reader helper (`flag, sibling, err := nextPathElement(source)`)
+		readBy := func(v ssa.Value, reader string, depth int) bool {
+			for d := 0; d <= depth; d++ {
+				v = ir.Strip(v)
+				if ex, ok := v.(*ssa.Extract); ok && ex.Index == 0 {
+					if cl, isCl := ex.Tuple.(*ssa.Call); isCl && ir.CalleeObj(cl) != nil && ir.CalleeObj(cl).Name() == reader {
+						return true
+					}
+				}
+				nv, release := valueVia(v)
+				release()
+				if nv == v {
+					return false
+				}
+				v = nv
+			}
+			return false
+		}
 		var flagV ssa.Value
-		for _, ci := range ir.Calls(fn, func(ci ssa.CallInstruction) bool { o := ir.CalleeObj(ci); return o != nil && o.Name() == "NextByte" }) {
-			if v, ok := ci.(ssa.Value); ok && v.Referrers() != nil {
-				for _, r := range *v.Referrers() {
-					if ex, isEx := r.(*ssa.Extract); isEx && ex.Index == 0 {
-						flagV = ex
+		for _, host := range func() []*ssa.Function { hs, rel := hostsWithHelpers(fn); rel(); return hs }() {
+			for _, ci := range ir.Calls(host, func(ci ssa.CallInstruction) bool { o := ir.CalleeObj(ci); return o != nil && o.Name() == "NextByte" }) {
+				if v, ok := ci.(ssa.Value); ok && v.Referrers() != nil {
+					for _, r := range *v.Referrers() {
+						if ex, isEx := r.(*ssa.Extract); isEx && ex.Index == 0 {
+							flagV = ex
+						}
 					}
 				}
 			}
@@ -514,18 +535,11 @@ func runC07(c *core.Ctx) {
 		} else {
 			kl, _ := constInt64Val(left)
 			kr, _ := constInt64Val(right)
-			isSibling := func(v ssa.Value) bool {
-				ex, ok := ir.Strip(v).(*ssa.Extract)
-				if !ok || ex.Index != 0 {
-					return false
-				}
-				cl, isCl := ex.Tuple.(*ssa.Call)
-				return isCl && ir.CalleeObj(cl) != nil && ir.CalleeObj(cl).Name() == "NextHash"
-			}
+			isSibling := func(v ssa.Value) bool { return readBy(v, "NextHash", 2) }
 			n := 0
 			// the combine step may sit in a small same-package helper handed flag, sibling and fold
 			hosts, releaseHosts := hostsWithHelpers(fn)
-			isFlag := func(v ssa.Value) bool { return v == flagV || ir.Strip(v) == flagV }
+			isFlag := func(v ssa.Value) bool { return v == flagV || ir.Strip(v) == flagV || readBy(v, "NextByte", 2) }
 			for _, host := range hosts {
 				if host != fn {
 					c.Attribute(host, fn)
@@ -548,8 +562,8 @@ func runC07(c *core.Ctx) {
 		}
 		// every (flag, sibling) element that was read is folded into the running hash before the next element is
 		// read or the value is returned: an element with an unknown flag must not be skipped
-		for _, ci := range ir.Calls(fn, func(ci ssa.CallInstruction) bool { o := ir.CalleeObj(ci); return o != nil && o.Name() == "NextHash" }) {
-			nexts := ir.Calls(fn, func(x ssa.CallInstruction) bool { o := ir.CalleeObj(x); return o != nil && o.Name() == "NextByte" })
+		for _, ci := range ir.CallsThrough(fn, func(ci ssa.CallInstruction) bool { o := ir.CalleeObj(ci); return o != nil && o.Name() == "NextHash" }, 1) {
+			nexts := ir.CallsThrough(fn, func(x ssa.CallInstruction) bool { o := ir.CalleeObj(x); return o != nil && o.Name() == "NextByte" }, 1)
 			sinks := append(append([]ir.Sink{}, succ...), ir.CallSinks(nexts, "next element read")...)
 			eng.MustPassCall(c, "C07.path-proof", fn, "HashChildren(fold, sibling)", func(x ssa.CallInstruction) bool { return ir.CalleeIs(x, hch) }, sinks, "next element / value returned (every element read is folded)", &eng.Opt{Start: ci.(ssa.Instruction)})
 		}
